@@ -55,6 +55,8 @@ def run(ctx):
     ctx.do(rule_loop_flags_monotone, "C03.absent-values", ("stix2.base",))
     from .hidden_state import rule_no_hidden_state
     ctx.do(rule_no_hidden_state, "C03.history-independence")
+    from .pitfalls import rule_loops_not_cut_short
+    ctx.do(rule_loops_not_cut_short, "C03.loops-complete")
 
 
 def rule_table(ctx):
